@@ -23,7 +23,7 @@ COMPONENTS = {"real": ["amaranth.lib.memory.Memory/ReadPort/WritePort", "amarant
                        "amaranth.sim (_pyrtl memory processes, _PyMemoryState, _pyeval row access)", "amaranth.lib.data layouts"],
               "stub": ["PermSet scheduler seam", "clock driver", "array-of-rows model"]}
 EXPECTED_PROBES = ("coincide", "oob", "gate", "glitch-in", "inactive", "transparent_patch", "nontransparent_collision",
-                   "two_port_conflict", "cross_domain_collision", "row_rd", "row_wr", "granular_write")
+                   "two_port_conflict", "cross_domain_collision", "row_rd", "row_wr", "granular_write", "rtlil_compared_bits")
 
 DEPTHS = [0, 1, 2, 3, 5, 8, 9]
 
@@ -134,7 +134,7 @@ def gen_case(seed, tier):
             ch[n] = levels[n]
         steps.append({"k": "ev", "l": ch})
     return {"config": config, "sched": {"mode": sc.choice(["seeded", "seeded", "reverse", "insertion"]),
-                                        "seed": sc.randrange(1 << 32)}, "steps": steps}
+                                        "seed": sc.randrange(1 << 32)}, "steps": steps, "rtlil": sc.random() < 0.3}
 
 
 def shape_width(shape):
@@ -205,7 +205,7 @@ def run_case(case):
     stats = {"steps": 0, "edges": 0, "faults": {"coincide": 0, "oob": 0, "gate": 0, "glitch-in": 0, "inactive": 0},
              "probes": {"transparent_patch": 0, "nontransparent_collision": 0, "two_port_conflict": 0,
                         "cross_domain_collision": 0, "row_rd": 0, "row_wr": 0, "granular_write": 0, "port_writes": 0,
-                        "read_compares": 0}}
+                        "read_compares": 0, "rtlil_compared_bits": 0, "rtlil_undefined_bits_skipped": 0}}
     P, F = stats["probes"], stats["faults"]
     domains = [DomainSpec(d["name"], edge=d["edge"]) for d in config["domains"]]
     act = {d["name"]: (1 if d["edge"] == "pos" else 0) for d in config["domains"]}
@@ -370,6 +370,15 @@ def run_case(case):
 
     run_guarded(res, lambda: run.run(body))
     stats["decisions"] = run.decisions
+    if case.get("rtlil") and res.violation is None:
+        # RTLIL clause: the emitted memory cells, executed by the RTLIL interpreter under the same port/clock steps
+        from props import c04
+        st2 = {"steps": 0, "edges": 0, "faults": {"coincide": 0}, "probes": {"compared_bits": 0, "undefined_bits_skipped": 0,
+                                                                          "memory_design": 0}}
+        c = dict(case, steps=[s for s in case["steps"] if s["k"] in ("set", "ev")])
+        run_guarded(res, lambda: c04.run_memory(c, res, st2))
+        P["rtlil_compared_bits"] = st2["probes"]["compared_bits"]
+        P["rtlil_undefined_bits_skipped"] = st2["probes"]["undefined_bits_skipped"]
     nontrivial = P["port_writes"] > 0 and P["read_compares"] > 0 and any(F.values())
     return finish(res, dig, stats, nontrivial)
 
